@@ -18,6 +18,8 @@ GROUP = dict(
     roots=[TAB + '::do_emplace', TAB + '::find'],
     reviewed_compiler_conditionals=['src/babylon/concurrent/transient_hash_table.hpp:#if GCC_VERSION >= 120000'],
     assumptions=[],
+    # the probe sequence (spec.h, Group_ctor stub) is a convention insert and lookup share: see vcheck.finish
+    agree=[dict(name='probe-sequence', jobs=['C03.do_emplace', 'C03.find'], pattern=r'AGREE\[probe\]|loop_invariant_step|loop_invariant_base')],
     jobs=[
         dict(id='C03.do_emplace', enforce='Tab_do_emplace__unsigned_longRef_x', loops=True, backend='cadical', timeout=900, mem_gb=20),
         dict(id='C03.find', enforce='Tab_find__unsigned_long__u64R', loops=True, backend='cadical', timeout=900, mem_gb=20),
